@@ -1,26 +1,34 @@
 """Configuration of ./check for property C14 (loaded by tools/props.py)."""
+import os
+
+# self-test of the check (mutants/C14/check_mutant.sh): a patched copy of a library source file (regex/QueryFilter.cpp,
+# system/SetupSystem.cpp) is compiled into the harness in front of the library, so that its definitions win at link time
+_MUTANT_SRC = os.environ.get('VERIF_C14_MUTANT_SRC', '').split()
 
 PROP = {'engine': 'qf',
  'lean_props': ['MuscleModel.Props.C14'],
- 'harnesses': [{'name': 'qf', 'sources': ['harness/qf.cpp']}],
+ 'harnesses': [{'name': 'qf', 'sources': ['harness/qf.cpp'] + _MUTANT_SRC}],
  'trusted_base': ['hand-written Lean model of every Matches()/SaveToArchive()/SetFromArchive() of regex/QueryFilter.{h,cpp} and of the factory '
                   '(lean/MuscleModel/Filter), on top of the Message model of C01',
                   'filter class codes, operator enums, MUSCLE_NO_LIMIT, sizeof(Point/Rect/bool) and the bytes of Rect()/Point() are regenerated from /repo on '
-                  'every run (tools/extract_consts.cpp)',
+                  'every run (tools/extract_consts.cpp); the lexer token table, LTOKEN_* numbering, synonym list and ParseBool word lists are parsed from the '
+                  'source text on every run (tools/extract_kernels.py)',
                   'reference evaluator written from the header documentation inside harness/qf.cpp (direct oracle; abstains where the documentation is '
                   'silent)'],
  'assumptions': ['the four wildcard/regex string operators delegate to StringMatcher (parameter `sm` of eval; property C15); the driver prints no prediction '
                  'for them',
                  'a raw-data filter that reaches a Message/pointer/tag field compares the bytes of a reference object (an address): no prediction',
-                 'archive_roundtrip assumes a well-formed filter (Filter.WF): values of the operand width, NUL-free names, 32-bit indices, 8-bit operators, '
-                 'and no zero-length RawDataQueryFilter default (finding qf-rawdef-empty)',
-                 'expression strings (lexer/parser, CreateQueryFilterFromExpression) are not modelled in this version',
+                 'archive_roundtrip assumes a well-formed filter (wf): operands of the operand width, 32-bit indices/counts/type codes, 8-bit operators, and '
+                 'no zero-length RawDataQueryFilter default (finding C14-rawdef-empty)',
+                 'expression strings: lexer + parser are modelled (Filter/Lexer.lean, Filter/Parser.lean) and tied by the expr/exprt ops; atof is modelled '
+                 'only on decimal literals that need no rounding (other operands: no prediction); parse_print is proved for the canonical (fully parenthesised, one blank after each token) spelling of printable trees',
                  'IEEE comparison of the hardware is modelled on bit patterns (sign-magnitude key, NaN unordered)'],
  'rule': 'per case: a random filter tree (all 19 classes, depth <= 5) built through the public constructors on the real classes and parsed into the Lean '
          'model; its archive dump; the filter restored from the archive; Messages whose fields sit on both sides of each comparison evaluated on original and '
          'restored; Message-level and byte-level corruptions of the archive and arbitrary Messages offered to the factory; results (ok/err, archive dumps, '
          'true/false) must agree with the model; direct oracle on every eval (reference evaluator from the documentation, Message unchanged, repeatable, '
-         'wire-restored twin decides identically); distinct = distinct case bodies'}
+         'wire-restored twin decides identically); expression strings printed from random ASTs together with the tree the documented grammar denotes (exprt: '
+         'direct oracle compares the archives; field names containing keywords, :index and |default suffixes, redundant parentheses, double negation and INT64_MIN operands included) and hostile spellings (expr); corpus: every example of the expression section of html/Beginners Guide.html with its denoted tree; distinct = distinct case bodies'}
 
 TEXT = {'design_ref': 'DESIGN.md section 4, C14',
  'technique': 'Lean 4 theorems (threshold loop = counting spec incl. the documented n=0 rows, and/or/nand/nor/xor/min/max truth tables for every child '
@@ -30,11 +38,13 @@ TEXT = {'design_ref': 'DESIGN.md section 4, C14',
  'text': 'Proved in Lean for every filter tree, every Message and every node: the early-exit threshold loop equals "more than min(n, kids-1) children match" '
          '(true on no children), the seven combinators follow their truth tables for every child valuation, numeric comparison per operator and type is the '
          'mathematical / IEEE relation on the operand values, a missing item means "compare the default if one is given, else false", a filter restored from '
-         'its archive decides identically on every Message (for well-formed filters), and the factory on an arbitrary Message either fails or returns a '
-         'well-formed filter.  The model is tied to the C++ code by running both on the same random trees / archives / corrupted archives / Messages (ok-err, '
-         'archive dumps and decisions must be identical) and by a direct oracle on the real classes (reference evaluator from the documentation, Message '
-         'unchanged, restored twin agrees).',
- 'note': 'Not covered: expression strings (lexer/parser) - not modelled; the four wildcard/regex string operators are a parameter (C15).  Trusted: Lean '
-         'kernel, the statement file, the harness (sampling), constants regenerated from /repo headers.  Archive field ORDER is canonicalised (name order) '
-         'because SaveToArchive uses `a | b` whose operand order is unspecified in C++.  Known finding kept in corpus/C14 (zero-length RawDataQueryFilter '
-         'default).'}
+         'its archive is its normal form and decides identically on every Message (all 19 classes, any nesting depth, for well-formed filters), Point/Rect '
+         'comparison is the lexicographic order that skips unordered components, the expression lexer always makes progress (termination measure of the '
+         'parser), every filter the expression parser returns is well-formed (hence survives archiving), the canonical spelling of a printable tree of the documented grammar parses to exactly its denotation (parse_print), and the factory on an arbitrary Message either fails or returns a well-formed filter.  The model is tied to the C++ code by running both on '
+         'the same random trees / archives / corrupted archives / Messages (ok-err, archive dumps and decisions must be identical) and by a direct oracle on '
+         'the real classes (reference evaluator from the documentation, Message unchanged, restored twin agrees).',
+ 'note': 'Expression strings: lexer+parser modelled and tied by correspondence (expr/exprt ops, denotation oracle); parse_print proved for the canonical spelling only (other spellings: correspondence); atof only on '
+         'literals needing no rounding.  The four wildcard/regex string operators are a parameter (C15).  Trusted: Lean kernel, the statement file, the '
+         'harness (sampling), constants regenerated from /repo headers.  Archive field ORDER is canonicalised (name order) because SaveToArchive uses `a | b` '
+         'whose operand order is unspecified in C++.  Open finding kept in corpus/C14: zero-length RawDataQueryFilter default.  Fixed in /repo, regression ops kept in corpus/C14 (qf-regress-*.ops): expression field name kept '
+         'its :index/|default suffix (8495b83); lexer split names at embedded synonyms (b1d5b6e); ((x)) rejected (ef6af3a); Atoll negated INT64_MIN (3186549).'}
